@@ -5,12 +5,13 @@
 From FC Require Import Base.Res Index.IC Index.Stride Model.Wire.
 Set Implicit Arguments.
 
-Inductive icmop := MPush (x : N) | MExtend (l : list N) | MClear | MObserve.
+Inductive icmop := MPush (x : N) | MExtend (l : list N) | MClear | MObserve | MSerde.
 
 Definition ures_n (r : res N) : uval := match r with Ok v => USome (UN v) | Panic => UNone end.
 
 Section ICM.
   Variable c : IC N.
+  Context {CS : ICSer c}.
   Definition ic_observe (s : ic_st c) : uval :=
     let n := ic_len c s in
     UL [unat n; ubool (ic_is_empty c s);
@@ -25,6 +26,8 @@ Section ICM.
     | MExtend l :: ops' => UNone :: ic_run (ic_extend c s l) ops'
     | MClear :: ops' => UNone :: ic_run (ic_clear c s) ops'
     | MObserve :: ops' => ic_observe s :: ic_run s ops'
+    (* serde round trip: the serialised form before and after (the model's round trip is the identity) *)
+    | MSerde :: ops' => UL [ic_ser UN s; ic_ser UN s] :: ic_run s ops'
     end.
 End ICM.
 
@@ -44,6 +47,7 @@ Fixpoint stride_run (st : stride) (ops : list icmop) : list uval :=
   | MPush x :: ops' => let '(ok, st') := stride_push st x in UL [ubool ok; stride_u st'] :: stride_run st' ops'
   | MExtend _ :: ops' => UNone :: stride_run st ops'
   | MClear :: ops' => UNone :: stride_run SEmpty ops'
+  | MSerde :: ops' => UL [stride_ser st; stride_ser st] :: stride_run st ops'
   | MObserve :: ops' =>
       let n := stride_len st in
       UL [unat n; ubool (stride_is_empty st);
@@ -54,8 +58,8 @@ Fixpoint stride_run (st : stride) (ops : list icmop) : list uval :=
 (** container kinds: 0 Vec<usize>, 1 IndexList<Vec<u32>,Vec<u64>>, 2 IndexOptimized, 3 Stride *)
 Definition run_ic (kind : N) (ops : list icmop) : list uval :=
   match kind with
-  | 0%N => ic_run (vec_ic N 8) (ic_default (vec_ic N 8)) ops
-  | 1%N => ic_run index_list (ic_default index_list) ops
-  | 2%N => ic_run index_optimized (ic_default index_optimized) ops
+  | 0%N => @ic_run (vec_ic N 8) _ (ic_default (vec_ic N 8)) ops
+  | 1%N => @ic_run index_list _ (ic_default index_list) ops
+  | 2%N => @ic_run index_optimized _ (ic_default index_optimized) ops
   | _ => stride_run SEmpty ops
   end.
